@@ -3,6 +3,7 @@ package main
 // Engine: program loading, global tables, prelude.
 
 import (
+	"regexp"
 	"fmt"
 	"math/big"
 	"go/constant"
@@ -33,6 +34,8 @@ type Engine struct {
 	needProto   bool
 	needStrID   bool
 	needB64     bool
+	dynSpecs    map[string]bool // spec functions that (transitively) mention dyn/tid
+	dynTypes    map[string]bool // struct type names whose objects carry a dynamic type tag (used by tid("T") in specs)
 	needMapHas  bool
 	needApplyRB bool
 	needUnicode bool
@@ -80,6 +83,13 @@ func loadEngine(repo string, contractFiles []string) (*Engine, error) {
 	e.cs, err = loadContracts(contractFiles...)
 	if err != nil {
 		return nil, err
+	}
+	e.dynTypes = map[string]bool{}
+	for _, f := range contractFiles {
+		data, _ := os.ReadFile(f)
+		for _, m := range tidRe.FindAllStringSubmatch(string(data), -1) {
+			e.dynTypes[m[1]] = true
+		}
 	}
 	e.scanGlobals()
 	return e, nil
@@ -606,7 +616,78 @@ func (e *Engine) reaches(from, to *ssa.Function) bool {
 	return dfs(from)
 }
 
+var tidRe = regexp.MustCompile(`tid\("([^"]+)"\)`)
+
+// resetNeeds clears the per-function feature flags: each function's queries get a prelude with
+// only the library axioms that function uses (a quantified axiom of an unrelated library model
+// in a shared prelude turned proved goals of other functions into "unknown").
+func (e *Engine) resetNeeds() {
+	e.needBand, e.needStrLess, e.needVarint, e.needProto, e.needStrID, e.needB64 = false, false, false, false, false, false
+	e.needMapHas, e.needApplyRB, e.needUnicode, e.needDecval = false, false, false, false
+	needElemPtr = false
+}
+
+// usesDyn reports whether a function's contract (directly or through spec functions) speaks about
+// dynamic type tags; only those functions carry the tags (they cost a store per allocation and an
+// implication per pointer load).
+func (e *Engine) usesDyn(fc *FuncContract) bool {
+	if e.dynSpecs == nil {
+		e.dynSpecs = map[string]bool{}
+		direct := func(t string) bool { return strings.Contains(t, "dyn(") || strings.Contains(t, "tid(") }
+		for changed := true; changed; {
+			changed = false
+			for n, sf := range e.cs.Specs {
+				if e.dynSpecs[n] {
+					continue
+				}
+				hit := direct(sf.Text)
+				for d := range e.dynSpecs {
+					if strings.Contains(sf.Text, d+"(") {
+						hit = true
+					}
+				}
+				if hit {
+					e.dynSpecs[n] = true
+					changed = true
+				}
+			}
+		}
+	}
+	texts := []string{}
+	for _, cl := range fc.Clauses {
+		texts = append(texts, cl.Text)
+	}
+	for _, g := range fc.Ghosts {
+		texts = append(texts, g.Text)
+	}
+	for _, t := range texts {
+		if strings.Contains(t, "dyn(") || strings.Contains(t, "tid(") {
+			return true
+		}
+		for d := range e.dynSpecs {
+			if strings.Contains(t, d+"(") {
+				return true
+			}
+		}
+	}
+	return false
+}
+
+// dynTag: the tag stored in G$dyn.type for objects of struct type t ("" if untracked).
+func (e *Engine) dynTag(t types.Type) string {
+	if _, ok := t.Underlying().(*types.Struct); !ok {
+		return ""
+	}
+	if n := typeName(t); e.dynTypes[n] {
+		return fmt.Sprint(e.typeID(t))
+	}
+	return ""
+}
+
 func (e *Engine) isImmutable(family string) bool {
+	if strings.HasPrefix(family, "G$dyn.") {
+		return true // the dynamic type of an object never changes
+	}
 	for _, im := range e.cs.Immutables {
 		if strings.HasPrefix(family, im.Prefix) {
 			return true
